@@ -107,6 +107,7 @@ func ReplaceConfig(newValues map[string]interface{}) (validationErrors []*Valida
 		}()
 	}
 
+	vhook.At("config.set.presignal")
 	signalChanges()
 
 	return validationErrors, requiresRestart
@@ -145,6 +146,7 @@ func ReplaceDefaultConfig(newValues map[string]interface{}) (validationErrors []
 		}()
 	}
 
+	vhook.At("config.set.presignal")
 	signalChanges()
 
 	return validationErrors, requiresRestart
